@@ -503,11 +503,199 @@ async fn scatter_case(rep: &mut Report, rng: &mut Rng, st: SocketType, npeers: u
   let _ = tokio::time::timeout(Duration::from_secs(12), ctx.term()).await;
 }
 
+/// (fbmodel) FrameBatch - the container every multipart message travels in (two inline slots, then a 255-slot vector with
+/// hand-written unsafe code underneath, plus one unsafe line of its own in iter_mut) - driven through its whole public
+/// API by random operation sequences and compared with a plain Vec after every step. Runs natively as a cheap model
+/// layer and, in the thorough tier, inside Miri (aliasing model, uninitialised reads, leaks, use-after-free).
+fn fbmodel_layer(rep: &mut Report, args: &Args, rng: &mut Rng) {
+  use rzmq::{FrameBatch, Msg};
+  let histories = args.get_usize("histories", if args.thorough() { 4000 } else { 600 });
+  let max_ops = args.get_usize("ops", 60);
+  fn mk(tag: u32, more: bool) -> Msg {
+    let mut m = Msg::from_vec(tag.to_be_bytes().to_vec());
+    if more {
+      m.set_flags(rzmq::MsgFlags::MORE);
+    }
+    m
+  }
+  fn view(fb: &FrameBatch) -> Vec<(Vec<u8>, bool)> {
+    fb.iter().map(|m| (m.data().unwrap_or(&[]).to_vec(), m.is_more())).collect()
+  }
+  let mut next_tag = 0u32;
+  for h in 0..histories {
+    let start = rng.range(0, 4);
+    let mut model: Vec<(Vec<u8>, bool)> = vec![];
+    let mut fb = match start {
+      0 => FrameBatch::new(),
+      1 => FrameBatch::with_capacity(rng.range(0, 8)),
+      2 => FrameBatch::default(),
+      _ => {
+        let n = *rng.pick(&[0usize, 1, 2, 3, 7, 254, 255]);
+        let v: Vec<Msg> = (0..n)
+          .map(|_| {
+            next_tag += 1;
+            model.push((next_tag.to_be_bytes().to_vec(), false));
+            mk(next_tag, false)
+          })
+          .collect();
+        FrameBatch::from(v)
+      }
+    };
+    let nops = rng.range(1, max_ops);
+    let mut trace: Vec<String> = vec![format!("start={} len={}", start, model.len())];
+    let mut bad: Option<String> = None;
+    for _ in 0..nops {
+      let op = rng.range(0, 13);
+      match op {
+        0 | 1 | 2 => {
+          if model.len() < 255 {
+            next_tag += 1;
+            let more = rng.chance(1, 2);
+            fb.push(mk(next_tag, more));
+            model.push((next_tag.to_be_bytes().to_vec(), more));
+            trace.push("push".into());
+          }
+        }
+        3 => {
+          let a = fb.pop().map(|m| (m.data().unwrap_or(&[]).to_vec(), m.is_more()));
+          let b = model.pop();
+          trace.push("pop".into());
+          if a != b {
+            bad = Some(format!("pop returned {:?}, model {:?}", a, b));
+          }
+        }
+        4 => {
+          if model.len() < 255 {
+            let i = rng.range(0, model.len());
+            next_tag += 1;
+            fb.insert(i, mk(next_tag, false));
+            model.insert(i, (next_tag.to_be_bytes().to_vec(), false));
+            trace.push(format!("insert@{}", i));
+          }
+        }
+        5 => {
+          if !model.is_empty() {
+            let i = rng.range(0, model.len() - 1);
+            let m = fb.remove(i);
+            let b = model.remove(i);
+            trace.push(format!("remove@{}", i));
+            if (m.data().unwrap_or(&[]).to_vec(), m.is_more()) != b {
+              bad = Some(format!("remove({}) returned another element", i));
+            }
+          }
+        }
+        6 => {
+          let k = rng.range(0, 4).min(255 - model.len());
+          let mut other = FrameBatch::new();
+          for _ in 0..k {
+            next_tag += 1;
+            other.push(mk(next_tag, true));
+            model.push((next_tag.to_be_bytes().to_vec(), true));
+          }
+          fb.extend(other);
+          trace.push(format!("extend+{}", k));
+        }
+        7 => {
+          // iter_mut the way every send_multipart() path uses it: one element at a time. (Holding several yielded
+          // references at once - `iter_mut().collect()` - is flagged by Miri's Stacked Borrows model, because next()
+          // re-borrows the whole batch; no rzmq code path does that and no given property is about it, so it is
+          // noted in DESIGN.md and not exercised here.)
+          for (i, r) in fb.iter_mut().enumerate() {
+            let more = i % 2 == 0;
+            r.set_flags(if more { rzmq::MsgFlags::MORE } else { rzmq::MsgFlags::empty() });
+            model[i].1 = more;
+          }
+          trace.push("iter_mut(loop+write)".into());
+        }
+        8 => {
+          if let Some(l) = fb.last_mut() {
+            l.set_flags(rzmq::MsgFlags::empty());
+            let n = model.len();
+            model[n - 1].1 = false;
+          }
+          trace.push("last_mut".into());
+        }
+        9 => {
+          let c = fb.clone();
+          trace.push("clone".into());
+          if view(&c) != model {
+            bad = Some("clone differs from the original".into());
+          }
+          if rng.chance(1, 2) {
+            fb = c;
+          }
+        }
+        10 => {
+          let taken = std::mem::take(&mut fb);
+          let v: Vec<Msg> = taken.into_iter().collect();
+          trace.push("into_iter->from".into());
+          if v.len() != model.len() {
+            bad = Some(format!("into_iter yielded {} of {}", v.len(), model.len()));
+          }
+          fb = FrameBatch::from(v);
+        }
+        11 => {
+          if !model.is_empty() {
+            let i = rng.range(0, model.len() - 1);
+            let d = fb[i].data().unwrap_or(&[]).to_vec();
+            fb[i].set_flags(rzmq::MsgFlags::MORE);
+            model[i].1 = true;
+            trace.push(format!("index@{}", i));
+            if d != model[i].0 {
+              bad = Some(format!("index {} holds another element", i));
+            }
+          }
+        }
+        _ => {
+          // Not judged (outside what C02 states, no rzmq code path depends on it): a batch made by with_capacity(n >= 3)
+          // and still empty reports is_empty() == false and first() panics on it; first()/is_empty() are therefore only
+          // consulted on non-empty batches.
+          trace.push("first/len".into());
+          if fb.len() != model.len() || fb.iter().len() != model.len() {
+            bad = Some("len()/iter().len() disagree with the model".into());
+          } else if !model.is_empty() {
+            let f = fb.first().map(|m| m.data().unwrap_or(&[]).to_vec());
+            if f != model.first().map(|x| x.0.clone()) || fb.is_empty() {
+              bad = Some("first()/is_empty() disagree with the model on a non-empty batch".into());
+            }
+          }
+        }
+      }
+      if bad.is_none() && view(&fb) != model {
+        bad = Some("contents differ from the model".into());
+      }
+      if bad.is_some() {
+        break;
+      }
+    }
+    rep.case(&("fbmodel", h, nops, start), true);
+    rep.count("fbmodel_ops", trace.len() as u64 - 1);
+    rep.max("max:fbmodel_len", model.len() as u64);
+    if let Some(b) = bad {
+      let tail: Vec<String> = trace.iter().rev().take(12).rev().cloned().collect();
+      rep.violation(format!("framebatch_model_mismatch|{}", tail.last().cloned().unwrap_or_default().split('@').next().unwrap_or("").split('+').next().unwrap_or("")), format!("FrameBatch diverged from a Vec model: {} (last ops {:?})", b, tail), json!({"trace_tail": tail, "len": model.len()}));
+    }
+  }
+  for p in util::take_panics() {
+    if p.in_rzmq {
+      rep.violation(format!("panic|{}", util::panic_site(&p.location)), format!("panic at {}: {}", p.location, p.message), json!({"frames": p.backtrace_head}));
+    } else {
+      rep.inconclusive(format!("harness panic at {}: {}", p.location, p.message));
+    }
+  }
+  rep.sample(json!({"layer": "fbmodel", "histories": histories, "ops_per_history": format!("1..{}", max_ops), "ops": ["push", "pop", "insert", "remove", "extend", "iter_mut loop+write", "last_mut", "clone", "into_iter/from", "index/index_mut", "first/len/is_empty"]}));
+}
+
 fn main() {
   let args = Args::parse();
   util::install_panic_watch();
   let mut rep = Report::new("C02", &args.shard_name());
   let mut rng = Rng::new(args.seed.wrapping_mul(198491317).wrapping_add(args.shard as u64));
+  if args.only.as_deref() == Some("fbmodel") {
+    fbmodel_layer(&mut rep, &args, &mut rng);
+    rep.emit();
+    return;
+  }
   let rt = util::runtime(2);
   let mut idx = 0usize;
   let reps = if args.thorough() { 6 } else { 1 };
